@@ -246,12 +246,24 @@ func includeHeader(hdr string, signedHdrs []string) bool {
 }
 
 func IsBigDataAction(ctx *fiber.Ctx) bool {
-	if ctx.Method() == http.MethodPut && len(strings.Split(ctx.Path(), "/")) >= 3 {
-		if !ctx.Request().URI().QueryArgs().Has("tagging") && ctx.Get("X-Amz-Copy-Source") == "" && !ctx.Request().URI().QueryArgs().Has("acl") {
-			return true
-		}
+	if ctx.Method() != http.MethodPut {
+		return false
 	}
-	return false
+
+	// only PutObject and UploadPart stream their body through the deferred
+	// auth reader: "/bucket/" is a bucket action, and the other object
+	// subresources read the whole body up front
+	parts := strings.Split(ctx.Path(), "/")
+	if len(parts) < 3 || (len(parts) == 3 && parts[2] == "") {
+		return false
+	}
+
+	args := ctx.Request().URI().QueryArgs()
+	if args.Has("tagging") || args.Has("acl") || args.Has("retention") || args.Has("legal-hold") {
+		return false
+	}
+
+	return ctx.Get("X-Amz-Copy-Source") == ""
 }
 
 // expiration time window
